@@ -313,7 +313,8 @@ def outputMode2 (s : St α) (xold x : α) (y : Array α) (ip : Option (Interp α
 def outputPhase (s : St α) (xold x : α) (y : Array α) (ip : Option (Interp α)) : Option (St α) :=
   match s.tEval with
   | some te =>
-    if Num.abs (xold - x) ≤ s.tol then some (sampleInitial s te x y)
+    -- `if xold == x` (the initial callback; a genuine step, however short, is sampled through its interpolant)
+    if Num.eqb xold x = true then some (sampleInitial s te x y)
     else sampleStep s te (decide (x > xold)) xold x ip
   | none => some (outputMode2 s xold x y ip)
 
